@@ -197,6 +197,8 @@ def run(ctx):
     # the public login writers hand the transport exactly what write_into_vec produced (rule shared with C02)
     from . import c02_frame
     c02_frame.run_login_writers(ctx)
+    from . import c11
+    c11.check_scope_tables(ctx)
     check_builtin_lossless(ctx, st["g"])
     ctx.rule("lay.read-write-ref", n_read + n_write, floor=READ_FLOOR + WRITE_FLOOR,
              note=f"{n_read} reader and {n_write} writer layouts of {n_containers} containers vs wowm reference ({len(skipped)} non-wire helper structs skipped)")
